@@ -92,6 +92,42 @@ NEEDS.update({
  "w2_c19_m1": ("util/timeout.py read_timeout: clamp max(0, ...) removed in the total-only branch", "Timeout(total=X) with read unset + connect phase longer than total that still succeeds"),
  "w2_c19_m2": ("connectionpool.py _get_timeout returns the caller's Timeout object itself", "request-level Timeout object with total, passed to a second request after time has elapsed"),
 })
+NEEDS.update({
+ "w3_c01_m1": ("connectionpool.py _put_conn: `if not pool.full(): pool.put(...)` check-then-act", "two threads releasing at the same instant with one free slot: raw queue.Full escapes urlopen, connection neither pooled nor closed"),
+ "w3_c01_m2": ("response.py drain_conn: early return when the fp is already closed", "release_conn=False + preload_content=True + followed same-host redirect or status retry: the intermediate response never gives its connection back"),
+ "w3_c02_m1": ("connectionpool.py close(): drain the queue first, set self.pool = None afterwards", "request entering _get_conn() between the drain and the detach on a block=True pool: blocks for ever on an attached, emptied queue"),
+ "w3_c02_m2": ("response.py drain_conn: `for _ in self.stream(2**16): pass` instead of read()", "release_conn=False + preloaded response + followed redirect/retry + block=True pool with its other slots busy: deadlock"),
+ "w3_c03_m1": ("response.py release_conn guard closes self._original_response instead of self._connection", "keep-alive body partly read, release_conn(), rest of the body arrives late and looks like a response"),
+ "w3_c03_m2": ("connectionpool.py urlopen: conn.close() moved from finally into the except handler", "exception outside the handled tuple (KeyboardInterrupt, signal deadline) while the body is preloaded + late HTTP-shaped rest"),
+ "w3_c04_m1": ("util/retry.py get_backoff_time: `if self.backoff_max:` (cap 0 = no cap)", "backoff_max=0 with backoff_factor > 0 and two consecutive retried events"),
+ "w3_c04_m2": ("connectionpool.py status-retry branch: sleep_for_retry(response) or sleep() (flag check bypassed)", "respect_retry_after_header=False + forcelisted status carrying Retry-After"),
+ "w3_c05_m1": ("poolmanager.py 303 branch: body/headers stripped only `if kw.get('body') is not None`", "body-less request with content headers (request or manager defaults) answered 303"),
+ "w3_c05_m2": ("util/request.py set_file_position returns rewind_body()'s None (same edit as w2_c11_m2)", "file body + two body-preserving redirects (third send empty)"),
+ "w3_c06_m1": ("poolmanager.py urlopen: kw.get('retries', conn.retries) (same edit as c05_m1)", "manager-level custom strip set + explicit retries=None with the request + cross-origin redirect"),
+ "w3_c06_m2": ("util/retry.py Retry.__init__: a frozenset strip set is kept as is (not lower-cased)", "remove_headers_on_redirect given as a frozenset with upper-case letters"),
+ "w3_c07_m1": ("ssl_match_hostname.py match_hostname: commonName gate lost `and not dnsnames`", "urllib3's own matcher in charge + caller ssl_context (hostname_checks_common_name) + certificate with non-matching SAN and matching CN"),
+ "w3_c07_m2": ("connection.py is_verified: verify_mode != CERT_NONE instead of == CERT_REQUIRED", "cert_reqs=CERT_OPTIONAL without assert_fingerprint: reported verified, no InsecureRequestWarning"),
+ "w3_c08_m1": ("ssl_match_hostname.py _dnsname_match: compiled pattern cached per certificate name only", "same partial-wildcard name matched against an ordinary host and an xn-- host in one process: the first decides both"),
+ "w3_c08_m2": ("ssl_match_hostname.py match_hostname: zone stripping overwrites hostname for non-IP hosts", "requested DNS host containing '%' whose part before the last '%' matches a SAN"),
+ "w3_c09_m1": ("poolmanager.py _default_key_normalizer host .lower().rstrip('.') (same edit as w2_c18_m2)", "https through a proxy, two requests whose hosts differ only by the trailing dot: CONNECT names the wrong spelling"),
+ "w3_c09_m2": ("connection.py: _has_connected_to_proxy set after _tunnel() and no longer reset by close()", "successful tunnel, tunnel closed, same connection object re-tunnels and the proxy refuses: ProtocolError instead of ProxyError"),
+ "w3_c10_m1": ("connection.py request(): header_keys built from stripped names", "caller header named like a special one plus trailing whitespace ('Content-Length ', 'Host\\t'): automatic header suppressed / framing lost"),
+ "w3_c10_m2": ("connection.py request(): chunked=True + caller Content-Length drops Transfer-Encoding but still chunk-frames the body", "chunked=True together with a caller-supplied Content-Length and a non-empty body"),
+})
+STRENGTHENED.update({
+ "w3_c01_m1": "(C01 is single-threaded: the race is caught by C02, whose queue stand-in makes full()/put() separate scheduling points)",
+ "w3_c02_m1": "C02 deadlock signature: a waiter that started to wait on the ATTACHED queue while no requester held a lease (known finding F-C02-a refined so that it cannot absorb this)",
+ "w3_c02_m2": "(C02 unchanged: caught by C01's release_conn=False + preload configurations)",
+ "w3_c03_m2": "C03 server behaviour 'interrupt while the body is received, rest late' and C01 invariant 'a pooled open connection has finished its last exchange'",
+ "w3_c04_m1": "C04 backoff configuration with backoff_max=0",
+ "w3_c05_m2": "(C05 unchanged: caught by C11's three-attempt histories with file bodies)",
+ "w3_c06_m1": "C06 placement: explicit request-level None over a manager-level strip set",
+ "w3_c06_m2": "C06 strip sets handed over as frozenset / tuple with mixed case",
+ "w3_c07_m1": "(C07 unchanged: caught by C08's commonName-with-SAN classes)",
+ "w3_c08_m2": "C08 DNS hosts containing '%'",
+ "w3_c09_m1": "(C09 unchanged: caught by C18's dotted-host location pairs)",
+ "w3_c10_m2": "C10 family body-framing: caller framing header with and without chunked=True, judged as 'exactly one request under the announced framing'",
+})
 # missed by the check as it stood when the change arrived -> what was added to the check (then re-run: detected)
 STRENGTHENED = {
  "c01_m1": "C01 op alphabet: PUT with a body whose seek() fails (any second attempt ends in UnrewindableBodyError)",
@@ -132,16 +168,17 @@ STRENGTHENED.update({
  "w2_c20_m1": "C20 routed cases with the caller's own HTTPHeaderDict used for two requests with different boundaries",
  "w2_c15_m1": "(C15 unchanged: the change is caught by C09's closed-tunnel histories)",
 })
-CAUGHT_BY_OTHER = {"w2_c07_m2": ["C18"], "w2_c15_m1": ["C09"], "c09_m2": ["C07", "C09"], "c07_m2": ["C07", "C08"]}
+CAUGHT_BY_OTHER = {"w2_c07_m2": ["C18"], "w2_c15_m1": ["C09"], "w3_c01_m1": ["C02"], "w3_c02_m2": ["C01"], "w3_c05_m2": ["C11"],
+                   "w3_c07_m1": ["C08"], "w3_c09_m1": ["C18"], "c09_m2": ["C07", "C09"], "c07_m2": ["C07", "C08"]}
 
 def main():
     out_root = "/verif/seeded"
     os.makedirs(out_root, exist_ok=True)
     rows = []
     for name in sorted(NEEDS):
-        if name.startswith("w2_"):
-            _, x, m = name.split("_")
-            src = "/tmp/mut2_%s/deliver/%s" % (x, m)
+        if name.startswith("w2_") or name.startswith("w3_"):
+            w, x, m = name.split("_")
+            src = "/tmp/mut%s_%s/deliver/%s" % (w[1], x, m)
         else:
             x, m = name.split("_")
             src = "/tmp/mut_%s/deliver/%s" % (x, m)
